@@ -10,7 +10,7 @@ use crossbeam_channel::{Receiver, Sender};
 use super::Block;
 use crate::{VirtualPosition, gzi};
 
-type BufferedRx = Receiver<io::Result<Buffer>>;
+type BufferedRx = Receiver<(Buffer, io::Result<()>)>;
 type ReadTx = Sender<BufferedRx>;
 type ReadRx = Receiver<BufferedRx>;
 type RecycleTx = Sender<Buffer>;
@@ -232,7 +232,12 @@ where
             panic!("invalid state");
         };
 
-        while let Some(mut buffer) = recv_buffer(read_rx)? {
+        while let Some((mut buffer, result)) = recv_buffer(read_rx) {
+            if let Err(e) = result {
+                recycle_tx.send(buffer).ok();
+                return Err(e);
+            }
+
             buffer.block.set_position(self.position);
             self.position += buffer.block.size();
 
@@ -344,14 +349,9 @@ where
     }
 }
 
-fn recv_buffer(read_rx: &ReadRx) -> io::Result<Option<Buffer>> {
-    if let Ok(buffered_rx) = read_rx.recv()
-        && let Ok(buffer) = buffered_rx.recv()
-    {
-        return buffer.map(Some);
-    }
-
-    Ok(None)
+fn recv_buffer(read_rx: &ReadRx) -> Option<(Buffer, io::Result<()>)> {
+    let buffered_rx = read_rx.recv().ok()?;
+    buffered_rx.recv().ok()
 }
 
 struct ReadError<R>(R, io::Error);
@@ -383,8 +383,8 @@ where
                 #[cfg(noodles_verif)]
                 crate::verif_gate::enter(crate::verif_gate::Kind::Inflate, verif_seq);
 
-                let result = parse_block(&buffer.buf, &mut buffer.block).map(|_| buffer);
-                let _ = buffered_tx.send(result);
+                let result = parse_block(&buffer.buf, &mut buffer.block);
+                let _ = buffered_tx.send((buffer, result));
             });
 
             if read_tx.send(buffered_rx).is_err() {
